@@ -263,7 +263,7 @@ def listAdd (s : Store) (l : Ref) (o : Ref) : Store × Ref := s.allocLst (s.lst 
 /-- `NeuronList.__sub__` / `__and__` with a membership predicate decided by the caller (`==` on neurons). -/
 def listFilter (s : Store) (l : Ref) (keep : Ref → Bool) : Store × Ref := s.allocLst ((s.lst l).filter keep)
 
-/-- `NeuronList.__or__(neuron)` as navis writes it (since the fix PENDING_1):
+/-- `NeuronList.__or__(neuron)` as navis writes it (since the fix a77a44b):
 `neurons = list(self.neurons)` (a NEW list) ; `if not any(n == other …): neurons.append(other)` ;
 `return self.__class__(neurons)`.  `present` is the outcome of the `any(n == other)` test. -/
 def listOr (s : Store) (l : Ref) (o : Ref) (present : Bool) : Store × Ref :=
